@@ -1,7 +1,7 @@
 #!/usr/bin/env python3
 """Shared machinery: TLC runner (exhaustive / simulate / trace validation / graph dump), TLA+ value
 parser, evidence writer, known-findings bookkeeping, VIOLATION reporting."""
-import json, os, re, shutil, subprocess, sys, tempfile, time, hashlib, random
+import json, random, os, re, shutil, subprocess, sys, tempfile, time, hashlib, random
 
 VERIF = os.path.dirname(os.path.dirname(os.path.abspath(__file__)))
 # reference implementations (zstd, xz, bzip2, bsdtar, GNU tar) may live outside a minimal PATH
@@ -344,7 +344,7 @@ def parse_state_label(label):
 
 def load_dot(path):
     """returns (nodes {id: state dict}, edges [(a, b, label)], initial ids)"""
-    nodes, edges, init = {}, [], []
+    nodes, edges, init, raw = {}, [], [], {}
     for line in open(path):
         m = re.match(r'^(-?\d+) -> (-?\d+) \[label="(.*?)"', line)
         if m:
@@ -353,9 +353,50 @@ def load_dot(path):
         m = re.match(r'^(-?\d+) \[label="((?:[^"\\]|\\.)*)"(.*)\]', line)
         if m:
             nodes[m.group(1)] = parse_state_label(m.group(2))
+            raw[m.group(1)] = m.group(2)
             if "filled" in m.group(3):
                 init.append(m.group(1))
+    # TLC numbers states by fingerprint and writes them in the order its workers find them: rename the states by the rank of
+    # their (unique) label text so that everything derived from the graph is reproducible from run to run
+    rank = {old: "s%07d" % k for k, old in enumerate(sorted(raw, key=lambda x: raw[x]))}
+    nodes = {rank[k]: v for k, v in nodes.items()}
+    edges = sorted({(rank[a], rank[b], l) for (a, b, l) in edges if a in rank and b in rank})
+    init = sorted(rank[i] for i in init)
     return nodes, edges, init
+
+
+def all_paths(nodes, edges, init, maxlen, cap=None, rng=None, skip=lambda label: False):
+    """Every path (list of edge indices) of 1..maxlen edges from an initial state.  Different histories that lead to the same model
+    state are different paths here (an edge cover would merge them - and a defective implementation may tell them apart).  With `cap`
+    and more paths than that, a seeded uniform sample of the full-length paths plus all shorter ones."""
+    from collections import defaultdict
+    out = defaultdict(list)
+    for k, (a, b, l) in enumerate(edges):
+        if not skip(l):
+            out[a].append(k)
+    res = []
+
+    def rec(n, p):
+        if p:
+            res.append(list(p))
+        if len(p) >= maxlen:
+            return
+        for k in out[n]:
+            b = edges[k][1]
+            if b == n and edges[k][2].startswith("Finished"):
+                continue
+            p.append(k)
+            rec(b, p)
+            p.pop()
+
+    for i in sorted(init):
+        rec(i, [])
+    if cap is not None and len(res) > cap:
+        full = [p for p in res if len(p) == maxlen]
+        short = [p for p in res if len(p) < maxlen]
+        (rng or random.Random(1)).shuffle(full)
+        res = short[:cap // 4] + full[:cap - min(len(short), cap // 4)]
+    return res
 
 
 def path_cover(nodes, edges, init, max_paths=None, rng=None):
